@@ -39,11 +39,10 @@ Fixpoint plain (v : pyval) : bool :=
   | PCInst _ _ _ | PStruct _ _ | PArr _ _ _ | PSArr _ _ _ _ => false
   end.
 
-(* ApiReachable: from the zero message by validated assignments (any key, any plain value; the float-array
-   exclusion of C09 applies: a sequence starting with NaN can smuggle an infinity in) *)
+(* ApiReachable: from the zero message by validated assignments (any leaf, any key, any plain value) *)
 Inductive reach (leaves : list field) (size : nat) : list Z -> Prop :=
 | reach_zero : reach leaves size (repeat 0 size)
-| reach_set : forall m f k v, reach leaves size m -> In f leaves -> plain v = true -> excl (f_ty f) v = true ->
+| reach_set : forall m f k v, reach leaves size m -> In f leaves -> plain v = true ->
     reach leaves size (snd (set true f k m v)).
 
 (* the invariant of reachable images *)
@@ -70,13 +69,14 @@ Definition reach_inv (leaves : list field) (size : nat) (m : list Z) : bool :=
   (length m =? size)%nat && all_bytes m &&
   forallb (fun f => leaf_inv (f_ty f) (extent f m)) leaves && uncovered_zero leaves m.
 
-(* exclusion 1: no stale bytes after the first NUL of a char array *)
+(* no stale bytes after the first NUL of a char array (an invariant of reachable images since the String
+   descriptor clears the array before a shorter value is stored) *)
 Definition string_clean (bs : list Z) : bool :=
   let p := take_until_nul bs in zl_eqb (skipn (length p) bs) (repeat 0 (length bs - length p)).
 Definition strings_clean (leaves : list field) (m : list Z) : bool :=
   forallb (fun f => match f_ty f with TString _ => string_clean (extent f m) | _ => true end) leaves.
 
-(* exclusion 2 (JSON only): every NaN is the canonical quiet NaN (positive, zero payload) *)
+(* the exclusion (JSON only): every NaN is the canonical quiet NaN (positive, zero payload) *)
 Definition elem_nan_canon (e : elem) (bs : list Z) : bool :=
   match e with
   | EFloat _ ct => let u := le_decode bs in
